@@ -253,7 +253,7 @@ def run(rng, res, tier, shard, nshards):
         f = check_case(case, res)
         nt = True
         res.case(digest(case))
-        if res.evaluations % 211 == 3:
+        if len(res.samples) < 3 and len(case['history']) >= 3:
             res.sample({'start': case['start'][0], 'history': case['history'][:10], 'fmt': case['fmt'], 'with_model': case['with_model']})
         if f:
             res.violation(f[0], f[1], case)
